@@ -75,6 +75,20 @@ def concrete_str(v):
     return ''.join(map(chr, cs))
 
 
+# (state name understood by checks/gitlib.build_repo, untrimmed `git status --porcelain` text, dirty per the statement)
+STATUS_MENU = [
+    ('clean', '', False),
+    ('untracked', '?? new.txt\n', True),
+    ('modified', ' M f\n', True),                     # unstaged-only change of a one-character path
+    ('staged', 'M  f\n', True),
+    ('deleted', ' D f\n', True),
+    ('staged_and_modified', 'MM f\n', True),
+    ('modified_and_untracked', ' M f\n?? new.txt\n', True),
+    ('modified_long_path', ' M sub/file.txt\n', True),
+    ('staged_new', 'A  n\n', True),
+    ('ignored_only', '', False),
+]
+
 class GitWorld:
     def __init__(self, ctx, arg):
         w = ctx.w
@@ -98,15 +112,10 @@ class GitWorld:
         self.cts = w.fresh_int('cts', 10**9, 2 * 10**9)
         self.ts = [w.fresh_int('ts%d' % i, 10**9, 2 * 10**9) for i in range(self.k)]
         self.branch = c04.branch_chars(w, arg['branch']) if arg.get('branch') is not None else None      # None = detached
-        self.status = []
-        for i in range(arg.get('status_len', 0)):
-            c = z3.Int('st%d' % i)
-            w.assume(C.domain(c))
-            self.status.append(c)
-        if self.status:
-            # run_git_command trims: the output neither starts nor ends with whitespace
-            w.assume(z3.Not(C.p_whitespace(self.status[0])))
-            w.assume(z3.Not(C.p_whitespace(self.status[-1])))
+        # work-tree state: a solver variable over a menu of `git status --porcelain` answers (the exact texts git prints for
+        # the states checks/gitlib.build_repo can realise — verified against real git on every run —, trimmed as
+        # run_git_command returns them: an unstaged-only first entry loses its leading blank)
+        self.status_kind = w.fresh_int('st_kind', 0, len(STATUS_MENU) - 1) if arg.get('status_len', 0) else 0
         self.log = []
 
     # ---- the stub: one answer per git sub-command, from the summary
@@ -187,7 +196,7 @@ class GitWorld:
         if argv == ['log', '-1', '--format=%ct']:
             return int_to_chars(I, self.cts)
         if argv == ['status', '--porcelain']:
-            return list(self.status)
+            return [ord(c) for c in STATUS_MENU[self.status_index()][1].strip()]
         if argv[:3] == ['show', '-s', '--format=%ct'] and len(argv) == 4 and argv[3].endswith('^{commit}'):
             t = argv[3][:-len('^{commit}')]
             i = self.where(t)
@@ -252,6 +261,14 @@ class GitWorld:
                 return i
         return None
 
+    def status_index(self):
+        if isinstance(self.status_kind, int):
+            return self.status_kind
+        for i in range(len(STATUS_MENU)):
+            if self.w.branch(self.status_kind == i):
+                return i
+        raise Infeasible()
+
     def ts_of(self, i):
         return self.ts[i] if i < self.k else z3.IntVal(10**9)
 
@@ -260,7 +277,7 @@ class GitWorld:
             return x if isinstance(x, int) else m.eval(x, model_completion=True).as_long()
         return dict(commits=self.k, shape=self.shape, order=sorted(range(self.k), key=lambda i: ev(self.pos[i])), tags={t: ev(self.loc[t]) for t in self.tags}, annotated=[t for t in self.tags if z3.is_true(m.eval(self.annotated[t], model_completion=True))], distance=ev(self.dist), commit_ts=ev(self.cts),
                     ts=[ev(x) for x in self.ts], branch=None if self.branch is None else ''.join(chr(ev(c)) for c in self.branch),
-                    status=''.join(chr(ev(c)) for c in self.status))
+                    status=STATUS_MENU[ev(self.status_kind)][0] if ev(self.status_kind) else '')
 
 
 def _run_git_command(I, ci, this, args):
@@ -384,7 +401,7 @@ def path(ctx, arg):
     if w.find(f('commit_timestamp') != wd.cts) is not None:
         bad.append('commit_timestamp')
     dirty = f('is_dirty')
-    want_dirty = len(wd.status) > 0
+    want_dirty = STATUS_MENU[wd.status_index()][2]
     if (w.find(dirty != z3.BoolVal(want_dirty)) is not None) if not isinstance(dirty, bool) else dirty != want_dirty:
         bad.append('is_dirty')
     br = peel(f('current_branch'))
